@@ -108,7 +108,7 @@ def liveness(chk, prop, tier):
         rc, text, wall = tlc.run(tla, cfgp, wd, workers=8, timeout=1800)
         violated = bool(re.search(r"Temporal propert(y \S+ was|ies were) violated", text))
         if rc != 0 and not violated:
-            raise tlc.MachineryError("consumer liveness check failed to run (rc=%s):\n%s" % (rc, text[-1500:]))
+            raise tlc.MachineryError("consumer liveness check failed to run (rc=%s):\n%s" % (rc, tlc.describe(text)))
         chk.add_model("Consumer_Live[%s]" % name, tlc.MCResult(0, text, wall), {"constants": [c.strip() for c in consts], "constraint": "at most 3 commit waiters"},
                       "temporal property C02_progress: (<>[][fault-free steps]) => <>[](caught up with the log, or stopped / failed)")
         chk.count("%s.progress:%s:%s" % (prop, name, "violated" if violated else "holds"))
